@@ -192,9 +192,7 @@ def rule_sink_sites(facts):
             where = pat.where(b, blk.idx)
             if b.item == "append_literal" and pat.has_call(data, "Vec::as_slice") and pat.has_field(data, "buf") and not pat.has_call(data, "index"):
                 # under cursor == dict_size, followed by cursor = 0
-                gs, _ = pat.guards(b)
-                okk = any(pat.cmp_sides(t) and pat.cmp_sides(t)[0] == "Eq" and pat.has_field(t, "cursor") and pat.has_field(t, "dict_size") and
-                          c.dominates(nz, blk.idx) for (_, t, z, nz) in gs)
+                okk = any(c.dominates(full, blk.idx) for (_, full) in pat.wrap_guards(b))
                 if okk:
                     seen["wrap"] += 1
                     r.ok("term", {"fn": fn, "sink write": "whole window at cursor == dict_size"})
